@@ -867,6 +867,9 @@ def check_r11e(repo, rep, uni):
         for m in reach.values():
             for c in model.calls_in(m.node, shallow=True):
                 f = c.func
+                if isinstance(f, ast.Name):
+                    # a local alias of an attribute (lt = outer.operator_lt)
+                    f = norm.subst_locals(m.node, f, only_pure=False)
                 if isinstance(f, ast.Attribute):
                     continue     # self.compare / outer.operator_lt
                 d = repo.resolve(m.module, f, model.scope_locals(m))
